@@ -390,9 +390,10 @@ class Stream(object):
 
     def _setup_decompressor(self, response):
         '''Set up the content encoding decompressor.'''
-        encoding = response.fields.get('Content-Encoding', '').lower()
+        encoding = response.fields.get('Content-Encoding', '').strip().lower()
 
-        if encoding == 'gzip':
+        # "x-gzip" is the same coding (RFC 7230 section 4.2.3).
+        if encoding in ('gzip', 'x-gzip'):
             self._decompressor = wpull.decompression.GzipDecompressor()
         elif encoding == 'deflate':
             self._decompressor = wpull.decompression.DeflateDecompressor()
